@@ -120,6 +120,7 @@ func symxC06C() {
 	p := b.start(nil)
 	s, c := b.session("s", "c", "m", 30)
 	outstanding := map[int32]bool{}
+	carried := map[int32]byte{} // identifier -> payload of the delivery that holds it
 	seen := 0
 	for k := 0; k < sends; k++ {
 		symxTick()
@@ -133,6 +134,7 @@ func symxC06C() {
 			}
 			p.proc.Process(b.ctx, s, c, &packet.PubAck{Header: &packet.Header{}, MessageId: pick})
 			delete(outstanding, pick)
+			delete(carried, pick)
 			rt.Quiesce()
 		}
 		b.writer.Send(b.ctx, []string{"s"}, []int32{1}, &packet.Publish{Header: &packet.Header{}, Topic: []byte("m/t"), Payload: []byte{byte('a' + k)}})
@@ -141,8 +143,14 @@ func symxC06C() {
 		pubs := symxPublishes(c.written())
 		for _, pk := range pubs[seen:] {
 			rt.Assert(pk.MessageId >= 1 && pk.MessageId <= max, "C06.wire.identifier_in_configured_range")
+			if outstanding[pk.MessageId] && len(pk.Payload) == 1 && carried[pk.MessageId] == pk.Payload[0] {
+				continue // a retransmission of the same delivery (natively the real expiry ticker may fire)
+			}
 			rt.Assert(!outstanding[pk.MessageId], "C06.wire.identifier_not_already_in_flight")
 			outstanding[pk.MessageId] = true
+			if len(pk.Payload) == 1 {
+				carried[pk.MessageId] = pk.Payload[0]
+			}
 		}
 		seen = len(pubs)
 	}
